@@ -122,6 +122,8 @@ def tree_schema():
     for c in ('Method', 'StaticMethod', 'Constructor', 'Operator', 'DunderMethod'):
         s[c]['parent'] = 'ref:Class'
     s['InstantiatedClass']['parent_class'] = 'estr|ref:Typename'   # instantiate_parent_class returns the typename
+    for c in ('InstantiatedMethod', 'InstantiatedStaticMethod', 'InstantiatedConstructor'):
+        s[c]['parent'] = 'ref:InstantiatedClass'                   # InstantiationHelper passes the instantiated class
     s['MatlabWrapper']['ignore_classes'] = 'list[str]|tuple[str]'
     s['MatlabWrapper']['content'] = 'list[any]'
     return s
